@@ -177,6 +177,16 @@ c.ensures("C10._parse_vcs_options.no_effects", lambda a, res, cx: all(e[0] == "L
 c.exsures(ValueError, "C10._parse_vcs_options.value_error_iff_contradiction", lambda a, exc, cx: b_and(_vcs_opts_contradiction(a), all(e[0] == "Log" for e in cx.new)))
 
 
+def _cfg_result_sharing_file_patterns(a, name, assumptions):
+    """Callers' view of a function that returns a modified copy of cfg: the file_patterns
+    object is the very same one (NamedTuple._replace shares it)."""
+    res = k_config().fresh(name, assumptions)
+    return res.replace(file_patterns=field(a.cfg, "file_patterns"))
+
+
+REG["bumpver.cli._parse_vcs_options"].result_builder = _cfg_result_sharing_file_patterns
+
+
 # --------------------------------------------------------------------------- is_valid (v2/v1) as seen by callers
 c = REG.new("bumpver.v2version.is_valid")
 c.param("version_str", KStr())
@@ -259,17 +269,10 @@ def greatest_valid_tag(t, pattern, is_new, is_branch):
 
 
 # get_tags as seen by callers: the listing of the scope (or [] when no VCS is usable - then GET_TAGS is [])
-REG["bumpver.vcs.get_tags"].ensures(
-    "C09.get_tags.listing_is_function_of_scope", lambda a, res, cx: res.t == GET_TAGS(scope_is_branch(a.scope)), props=("C09",)
+REG["bumpver.vcs.get_tags"].assume_for_callers(
+    "A-git.get_tags.listing_is_function_of_scope (deterministic tag listing within one run)",
+    lambda a, res, cx: res.t == GET_TAGS(scope_is_branch(a.scope)),
 )
-REG["bumpver.vcs.get_tags"].assume_at_call_sites = True
-for _cl in REG["bumpver.vcs.get_tags"].ensures_:
-    if "listing_is_function_of_scope" not in _cl.name:
-        _cl.internal = True
-for _lst in REG["bumpver.vcs.get_tags"].exsures_.values():
-    for _cl in _lst:
-        _cl.internal = True
-REG["bumpver.vcs.get_tags"].assumed_clauses = ["C09.get_tags.listing_is_function_of_scope (A-git: deterministic listing within one run)"]
 
 
 def _gl_clause(a, res, cx):
@@ -338,6 +341,7 @@ def _ucfv_setup(a, st):
 
 
 c = REG.new("bumpver.cli._update_cfg_from_vcs")
+c.result_builder = _cfg_result_sharing_file_patterns
 c.setup = assume_order_laws
 c.param("cfg", k_config())
 c.param("fetch", KBool())
@@ -398,3 +402,391 @@ c.ensures(
 c.exsures(sp.CalledProcessError, "C01._is_valid_version.vcs_failure_writes_nothing", lambda a, exc, cx: all(e[0] != "Write" for e in cx.new), internal=True)
 c.exsures(_re.error)
 c.exsures(ValueError)
+
+
+# --------------------------------------------------------------------------- small helpers of the commands
+def _noop_hook(ex, a, st, node):
+    return [Val(None, st)]
+
+
+c = REG.new("bumpver.cli._configure_logging")
+c.callee_hook = _noop_hook
+c.trusted = "A-log: logging configuration has no effect on files, VCS or the exit status"
+
+c = REG.new("bumpver.cli._log_no_change", inline=True)
+
+DATE_OK = z3.Function("spec_is_iso_date", z3.StringSort(), z3.BoolSort())
+
+
+def _validate_date_hook(ex, a, st, node):
+    """A-lib: strptime either yields a date or raises ValueError; --date and --pin-date exclude each other."""
+    out = []
+    date, pin = a.date, a.pin_date
+    both = b_and(v_truthy(date), v_truthy(pin))
+    t, f = ex.split(both, st)
+    if t is not None:
+        out.append(Exc(ExcVal(SystemExit, (1,)), t))
+    if f is None:
+        return out
+    n, nn = ex.split(v_is_none(date), f)
+    if n is not None:
+        out.append(Val(None, n))
+    if nn is not None:
+        bad = nn.fork()
+        bad.assume(z3.Not(DATE_OK(V.z3str(V.unwrap_opt(date)))))
+        out.append(Exc(ExcVal(SystemExit, (1,)), bad))
+        nn.assume(DATE_OK(V.z3str(V.unwrap_opt(date))))
+        out.append(Val(SOpt(z3.BoolVal(False), V.sint(fresh_name("date_ordinal"))), nn))
+    return out
+
+
+c = REG.new("bumpver.cli._validate_date")
+c.param("date", KOpt(KStr()))
+c.param("pin_date", KBool())
+c.callee_hook = _validate_date_hook
+c.trusted = "A-lib (datetime.strptime): a date or ValueError -> exit 1; the function's own two branches are covered by the hook's shape"
+
+SUBMSG = z3.Function("spec_sub_msg_template", z3.StringSort(), z3.StringSort())
+c = REG.new("bumpver.cli._sub_msg_template")
+c.param("message", KStr())
+c.returns(KStr())
+c.ensures("C12._sub_msg_template.function_of_argument", lambda a, res, cx: V.z3str(res) == SUBMSG(V.z3str(a.message)))
+c.trusted = "callers' view (uninterpreted); the OLD/NEW substitution itself is checked in checks/c12.py (X on a word-boundary table)"
+
+
+# incr_dispatch as seen by the commands
+def _incr_effects(a, st, outcome):
+    st.emit("Incr", a.old_version, a.raw_pattern, outcome)
+
+
+c = REG.new("bumpver.cli.incr_dispatch")
+c.param("old_version", KStr())
+c.param("raw_pattern", KStr())
+for _p in ("major", "minor", "patch", "tag_num", "pin_increments", "pin_date"):
+    c.param(_p, KBool())
+c.param("tag", KEnum((None,) + TAG_VALUES))
+c.param("maybe_date", KOpt(KInt()))
+c.returns(KOpt(KStr()))
+c.effects = _incr_effects
+c.ensures("C01.incr_dispatch.none_or_nonempty_and_changed", lambda a, res, cx: b_or(v_is_none(res), b_and(v_ne(V.unwrap_opt(res), ""), v_ne(V.unwrap_opt(res), a.old_version))))
+c.ensures("C01+C13.incr_dispatch.computes_only", lambda a, res, cx: all(e[0] in ("Log", "CallResult") for e in cx.new), internal=True)
+c.exsures(OverflowError)
+c.exsures(ValueError)
+c.exsures(_re.error)
+c.exsures(NotImplementedError)
+c.exsures(KeyError)
+c.exsures(IndexError)
+
+
+# config.init as seen by the commands: (ctx, cfg or None); reads configuration files only
+def _config_init_hook(ex, a, st, node):
+    from .cli_kinds import k_config
+
+    st.emit("ConfigInit")
+    out = []
+    s_none = st.fork()
+    ctx = SOpaque("ProjectContext", z3.Const(fresh_name("ctx"), V.opaque_sort("ProjectContext")))
+    out.append(Val((ctx, None), s_none))
+    assumptions = []
+    cfg = k_config().fresh(fresh_name("cfg"), assumptions)
+    for x in assumptions:
+        st.assume(x)
+    # config invariants established by config._parse_config (contracts/config.py):
+    st.assume(b_implies(v_truthy(field(cfg, "tag")), v_truthy(field(cfg, "commit"))))
+    st.assume(b_implies(v_truthy(field(cfg, "push")), v_truthy(field(cfg, "commit"))))
+    st.assume(b_iff(v_truthy(field(cfg, "is_new_pattern")), b_and(b_not(v_contains("{", field(cfg, "version_pattern"))), b_not(v_contains("}", field(cfg, "version_pattern"))))))
+    st.emit("CallResult", "bumpver.config.init", cfg, a)
+    out.append(Val((ctx, cfg), st))
+    return out
+
+
+c = REG.new("bumpver.config.init")
+c.callee_hook = _config_init_hook
+c.trusted = "callers' view: a validated Config (tag/push imply commit; is_new_pattern iff no brace in the pattern) or None; only reads"
+
+
+# --------------------------------------------------------------------------- _print_diff (callers' view; body: C13 below)
+def _diff_effects(a, st, outcome):
+    st.emit("Diff", a.cfg, a.new_version, outcome)
+
+
+c = REG.new("bumpver.cli._print_diff")
+c.param("cfg", k_config())
+c.param("new_version", KStr())
+c.effects = _diff_effects
+c.exsures(SystemExit, "C13._print_diff.failure_exits_1", lambda a, exc, cx: v_eq(exc.args[0], 1))
+c.exsures(version.PatternError)
+c.exsures(_re.error)
+c.exsures(ValueError)
+c.trusted_body = True
+
+
+# --------------------------------------------------------------------------- _update: dirty check, rewrite, commit (C10, C11, C06)
+def _phases(cx):
+    """High-level phases in log order."""
+    out = []
+    for e in cx.new:
+        if e[0] in ("Probe", "ProbeFailed"):
+            out.append(("probe", e))
+        elif e[0] == "VcsStep" and e[1] == "dirty_check":
+            out.append(("dirty_check", e))
+        elif e[0] == "RewritePhase":
+            out.append(("rewrite", e))
+        elif e[0] == "CommitPhase":
+            out.append(("commit", e))
+        elif e[0] in ("Write", "Vcs", "Hook", "Popen", "Exec", "VcsStep"):
+            out.append(("raw", e))
+    return out
+
+
+PHASE_ORDER = ("probe", "dirty_check", "rewrite", "commit")
+
+
+def _update_clause(raised):
+    def fn(a, res, cx):
+        ph = _phases(cx)
+        kinds = [k for k, _ in ph]
+        if "raw" in kinds:
+            return False
+        idx = [PHASE_ORDER.index(k) for k in kinds]
+        if any(i >= j for i, j in zip(idx, idx[1:])):
+            return False  # documented order: dirty check, file rewrite, then the commit phase
+        cs = []
+        commit_cfg = v_truthy(field(a.cfg, "commit"))
+        ev = dict(ph)
+        if "probe" in ev:
+            cs.append(commit_cfg)  # the VCS is only looked for when committing
+        if "dirty_check" in ev:
+            if "probe" not in ev or ev["probe"][0] != "Probe":
+                return False
+            cs.append(commit_cfg)
+        if "commit" in ev:
+            # commit phase only after a dirty check that passed and a rewrite that succeeded
+            if "dirty_check" not in ev or ev["dirty_check"][2] != "return":
+                return False
+            if "rewrite" not in ev or ev["rewrite"][2] != "return":
+                return False
+            c_args = ev["commit"][2]
+            cs += [v_eq(c_args.new_version, a.new_version), v_eq(c_args.commit_message, a.commit_message), v_eq(c_args.tag_message, a.tag_message), c_args.cfg is a.cfg]
+        if "rewrite" in ev:
+            cs += [ev["rewrite"][3] is field(a.cfg, "file_patterns")]
+            if "dirty_check" in ev and ev["dirty_check"][2] != "return":
+                return False  # never rewrite after a failed dirty check
+        if not raised:
+            # normal return: the files were rewritten; committed iff a VCS was found while commit is on
+            if "rewrite" not in ev or ev["rewrite"][2] != "return":
+                return False
+            if "probe" in ev and ev["probe"][0] == "Probe" and "commit" not in ev:
+                return False
+            cs.append(b_implies(commit_cfg, "probe" in ev))
+        return b_and(*cs)
+
+    return fn
+
+
+def _update_exit(a, exc, cx):
+    return b_and(v_eq(exc.args[0], 1), _update_clause(True)(a, None, cx))
+
+
+def _update_effects(a, st, outcome):
+    st.emit("UpdatePhase", outcome, a)
+
+
+c = REG.new("bumpver.cli._update")
+c.param("cfg", k_config())
+c.param("new_version", KStr())
+c.param("commit_message", KStr())
+c.param("tag_message", KStr())
+c.param("allow_dirty", KBool())
+c.effects = _update_effects
+c.ensures("C10+C11+C06._update.dirty_check_then_rewrite_then_commit_each_only_after_success", _update_clause(False), internal=True)
+c.exsures(SystemExit, "C10+C11+C06._update.exit_1_keeps_phase_order_nothing_after_failure", _update_exit, internal=True)
+c.exsures(SystemExit, "C10._update.exit_status_1", lambda a, exc, cx: v_eq(exc.args[0], 1))
+for _E in (sp.CalledProcessError, OSError, version.PatternError, AssertionError, _re.error, ValueError):
+    c.exsures(_E, f"C10+C06._update.{_E.__name__}_keeps_phase_order_nothing_after_failure", lambda a, exc, cx: _update_clause(True)(a, None, cx), internal=True)
+
+c = REG.new("bumpver.cli._try_update")
+c.param("cfg", k_config())
+c.param("new_version", KStr())
+c.param("commit_message", KStr())
+c.param("tag_message", KStr())
+c.param("allow_dirty", KBool())
+c.effects = _update_effects
+
+
+def _try_update_ok(a, cx):
+    ev = [e for e in cx.new if e[0] == "UpdatePhase"]
+    if len(ev) != 1:
+        return False
+    ua = ev[0][2]
+    return b_and(ua.cfg is a.cfg, v_eq(ua.new_version, a.new_version), v_eq(ua.commit_message, a.commit_message), v_eq(ua.tag_message, a.tag_message), v_eq(ua.allow_dirty, a.allow_dirty))
+
+
+c.exsures(SystemExit, "C10._try_update.exit_status_1", lambda a, exc, cx: v_eq(exc.args[0], 1))
+c.ensures("C10._try_update.runs_update_once_with_same_arguments", lambda a, res, cx: _try_update_ok(a, cx), internal=True)
+c.exsures(SystemExit, "C10+C06._try_update.vcs_command_failure_exits_1", lambda a, exc, cx: b_and(v_eq(exc.args[0], 1), _try_update_ok(a, cx)), internal=True)
+for _E in (OSError, version.PatternError, AssertionError, _re.error, ValueError):
+    c.exsures(_E, f"C10._try_update.{_E.__name__}_after_single_update", lambda a, exc, cx: _try_update_ok(a, cx), internal=True)
+
+
+# --------------------------------------------------------------------------- the commands: test and update
+FORMAT_MSG = z3.Function("spec_format_message", z3.StringSort(), z3.StringSort(), z3.StringSort(), z3.StringSort(), z3.StringSort(), z3.StringSort())
+
+
+def _symbolic_format_hook(models, ex, tmpl, args, kwargs, st, node):
+    """str.format of a *symbolic* message template with the six documented keys: an
+    uninterpreted function of the template and the four distinct values (A-str: format inserts
+    argument text verbatim); a malformed template raises (KeyError / IndexError / ValueError)."""
+    keys = set(kwargs)
+    want = {"new_version", "old_version", "NEW_VERSION", "OLD_VERSION", "new_version_pep440", "old_version_pep440"}
+    if args or keys != want:
+        from pyvc.symexec import Unsupported
+
+        raise Unsupported("format of a symbolic template with unexpected arguments")
+    st.emit("FormatMsg", tmpl, dict(kwargs))
+    out = []
+    for cls in (KeyError, IndexError, ValueError):
+        out.append(Exc(ExcVal(cls, (V.sstr(fresh_name("excmsg")),)), st.fork()))
+    same = b_and(v_eq(kwargs["NEW_VERSION"], kwargs["new_version"]), v_eq(kwargs["OLD_VERSION"], kwargs["old_version"]))
+    res = SStr(FORMAT_MSG(V.z3str(tmpl), V.z3str(kwargs["new_version"]), V.z3str(kwargs["old_version"]), V.z3str(kwargs["new_version_pep440"]), V.z3str(kwargs["old_version_pep440"])))
+    st.ghost.setdefault("format_same_upper", []).append(same)
+    out.append(Val(res, st))
+    return out
+
+
+def _cmd_setup(a, st):
+    st.ghost["symbolic_format_hook"] = _symbolic_format_hook
+
+
+def _ev(cx, kind):
+    return [e for e in cx.new if e[0] == kind]
+
+
+def _start_cfg(a, cx):
+    """The configuration update works with after the VCS options and the tag scope rule."""
+    starts = [e for e in cx.new if e[0] == "CallResult" and e[1] == "bumpver.cli._update_cfg_from_vcs"]
+    opts = [e for e in cx.new if e[0] == "CallResult" and e[1] == "bumpver.cli._parse_vcs_options"]
+    if starts:
+        return starts[-1][2]
+    if opts:
+        return opts[-1][2]
+    return None
+
+
+def _update_common(a, cx, need_gate):
+    """Facts every outcome of `update` must satisfy. Returns list of bool-ish or None if malformed."""
+    cs = []
+    gates = _ev(cx, "Gate")
+    diffs = _ev(cx, "Diff")
+    phases = _ev(cx, "UpdatePhase")
+    raw = [e for e in cx.new if e[0] in ("Write", "Vcs", "VcsStep", "Hook", "Popen", "Exec", "RewritePhase", "CommitPhase")]
+    if raw or len(gates) > 1 or len(diffs) > 1 or len(phases) > 1:
+        return None
+    cfg = _start_cfg(a, cx)
+    if (diffs or phases) and (not gates or cfg is None):
+        return None  # nothing is shown or changed without passing the gate
+    if gates:
+        g = gates[0]
+        if cfg is None:
+            return None
+        old = field(cfg, "current_version")
+        # the gate compares against the start version (C09) with the configured pattern
+        cs += [v_eq(g[1], field(cfg, "version_pattern")), v_eq(g[2], old)]
+        uniq_expected = b_or(v_eq(field(cfg, "tag_scope"), config.TagScope.BRANCH), b_not(v_is_none(a.set_version)))
+        cs.append(b_iff(v_truthy(g[4]), uniq_expected))
+        cs.append(b_implies(b_not(v_is_none(a.set_version)), v_eq(g[3], V.unwrap_opt(a.set_version))))
+        for d in diffs:
+            cs += [v_eq(d[2], g[3]), d[1] is cfg or v_eq(d[1], cfg)]
+        for p in phases:
+            ua = p[2]
+            cs += [v_eq(ua.new_version, g[3]), ua.cfg is cfg or v_eq(ua.cfg, cfg), v_eq(ua.allow_dirty, a.allow_dirty)]
+        if diffs or phases:
+            # gate passed: ordering in the log
+            order = [e[0] for e in cx.new if e[0] in ("Gate", "Diff", "UpdatePhase")]
+            if order != sorted(order, key=("Gate", "Diff", "UpdatePhase").index):
+                return None
+    # --dry: no update phase at all
+    if phases:
+        cs.append(b_not(v_truthy(a.dry)))
+    if diffs:
+        cs.append(b_or(v_truthy(a.dry), v_cmp(">=", a.verbose, 2)))
+    # --no-fetch never fetches; --ignore-vcs-tag skips the tag lookup
+    for e in _ev(cx, "GetTags"):
+        cs.append(b_implies(v_truthy(e[1]) if not isinstance(e[1], bool) else e[1], v_truthy(a.fetch)))
+    starts = [e for e in cx.new if e[0] == "CallResult" and e[1] == "bumpver.cli._update_cfg_from_vcs"]
+    if starts:
+        cs.append(b_not(v_truthy(a.ignore_vcs_tag)))
+    elif gates:
+        cs.append(v_truthy(a.ignore_vcs_tag))
+    # messages: templates rendered with the documented keys bound to start and new version
+    fm = _ev(cx, "FormatMsg")
+    for e in fm:
+        kw = e[2]
+        if not gates or cfg is None:
+            return None
+        g = gates[0]
+        cs += [v_eq(kw["new_version"], g[3]), v_eq(kw["NEW_VERSION"], g[3]), v_eq(kw["old_version"], g[2]), v_eq(kw["OLD_VERSION"], g[2])]
+        cs += [V.z3str(kw["new_version_pep440"]) == TO_PEP440(V.z3str(g[3])), V.z3str(kw["old_version_pep440"]) == TO_PEP440(V.z3str(g[2]))]
+    if phases:
+        if len(fm) != 2 or cfg is None:
+            return None
+        ua = phases[0][2]
+        ctmpl = v_ite(v_is_none(a.commit_message), field(cfg, "commit_message"), SStr(SUBMSG(V.z3str(V.unwrap_opt(a.commit_message)))))
+        ttmpl = v_ite(v_is_none(a.tag_message), field(cfg, "tag_message"), SStr(SUBMSG(V.z3str(V.unwrap_opt(a.tag_message)))))
+        cs += [v_eq(fm[0][1], ctmpl), v_eq(fm[1][1], ttmpl)]
+        g = gates[0]
+        pn, po = TO_PEP440(V.z3str(g[3])), TO_PEP440(V.z3str(g[2]))
+        cs.append(V.z3str(ua.commit_message) == FORMAT_MSG(V.z3str(ctmpl), V.z3str(g[3]), V.z3str(g[2]), pn, po))
+        cs.append(V.z3str(ua.tag_message) == FORMAT_MSG(V.z3str(ttmpl), V.z3str(g[3]), V.z3str(g[2]), pn, po))
+    return cs
+
+
+def _update_return(a, res, cx):
+    cs = _update_common(a, cx, True)
+    if cs is None:
+        return False
+    gates = _ev(cx, "Gate")
+    phases = _ev(cx, "UpdatePhase")
+    if len(gates) != 1 or gates[0][5] != "return":
+        return False  # exit 0 only after the gate was evaluated...
+    cs.append(v_truthy([e for e in cx.new if e[0] == "CallResult" and e[1] == "bumpver.cli._is_valid_version"][-1][2]))  # ...and passed
+    # a real run did the update phase, a dry run did not
+    cs.append(b_iff(len(phases) == 1, b_not(v_truthy(a.dry))))
+    if phases and phases[0][1] != "return":
+        return False
+    return b_and(*cs)
+
+
+def _update_raise(a, exc, cx):
+    cs = _update_common(a, cx, False)
+    if cs is None:
+        return False
+    if issubclass(exc.cls, SystemExit):
+        cs.append(v_ne(exc.args[0], 0))  # never exit 0 through sys.exit
+    return b_and(*cs)
+
+
+def _update_contract():
+    c = REG.new("bumpver.cli.update")
+    c.setup = _cmd_setup
+    for p in ("dry", "allow_dirty", "ignore_vcs_tag", "fetch", "major", "minor", "patch", "tag_num", "pin_increments", "pin_date"):
+        c.param(p, KBool())
+    c.param("verbose", KInt(ge=0))
+    c.param("tag", KOpt(KStr()))
+    c.param("date", KOpt(KStr()))
+    c.param("set_version", KOpt(KStr()))
+    c.param("commit_message", KOpt(KStr()))
+    c.param("tag_message", KOpt(KStr()))
+    c.param("commit", KOpt(KBool()))
+    c.param("tag_commit", KOpt(KBool()))
+    c.param("push", KOpt(KBool()))
+    c.param("tag_scope", KEnum([None] + [e.value for e in config.TagScope]))
+    c.param("pre_commit_hook", KOpt(KStr()))
+    c.param("post_commit_hook", KOpt(KStr()))
+    c.ensures("C01+C09+C10+C12+C13.update.exit_0_only_through_gate_dry_changes_nothing_messages_rendered", _update_return, internal=True)
+    for E in (SystemExit, sp.CalledProcessError, OSError, version.PatternError, AssertionError, _re.error, ValueError, KeyError, IndexError, OverflowError, NotImplementedError):
+        c.exsures(E, f"C01+C10+C13.update.failure_{E.__name__}_nonzero_exit_nothing_past_the_gate", _update_raise, internal=True)
+    return c
+
+
+_update_contract()
